@@ -46,7 +46,8 @@ ASSUMPTIONS = [
 ]
 RULE = ("cases: (a) sinusoids A cos(2 pi f0 n/fs + phi), A in [1e-3,1e3], L in [16,4096] odd and even, fractional bin position at least "
         "(main-lobe half-width + 1) bins from 0 and L/2, Kaiser psll in [60,200], orders -1,0,1,2, default and random overlap, "
-        "function / method / fres entry points, auto and two-channel; (b) ENBW of every bin of random full plans for kaiser / hann / "
+        "function / method / fres entry points, auto and two-channel, every (order, backend) pair, every fifth case with a callable window that takes "
+        "NEGATIVE values (scipy flattop, HFT95, a hand-made one) and rho measured from that window; (b) ENBW of every bin of random full plans for kaiser / hann / "
         "callable windows, each configuration run twice in a row with different windows (call history); (c) channel scaling by "
         "c in {2,0.5,-4} (bit-exact) and generic c on random two-channel and one-channel analyses; (c') the same laws over the whole range "
         "of factors: (cx, cy) with one or both of them in [1e-12,1e-4] / [1e4,1e12] (round decades and generic) and powers of two "
@@ -60,7 +61,9 @@ RULE = ("cases: (a) sinusoids A cos(2 pi f0 n/fs + phi), A in [1e-3,1e3], L in [
         "list, 2xN, Nx2, Fortran-ordered, list of lists), records with drift / offset / tone / red noise, both parities of L, K = 1 and K = 2; every "
         "case gets: window sums and ENBW of every bin, raw statistics at bins spread over the plan against the definition (extended precision) with "
         "the ps / density identities, the input array untouched, a second call (same analyzer / same array; single-bin after compute; L, L', L on one "
-        "analyzer) bit-identical, the other backend under identical options, one pair of scale factors, one fs relabelling; streams (a)-(d) also "
+        "analyzer) bit-identical, the other backend under identical options, one pair of scale factors, one fs relabelling, and a sinusoid at the frequency of one bin of the "
+        "case's own plan through the same entry point (ps = 2*XX/S1^2 of the reference for every order, = A^2/2 within the proved bound for orders "
+        "-1, 0, windows incl. the negative-lobe ones); streams (a)-(d) also "
         "rotate the backend; "
         "(f) size thresholds: calibration with L = 70 001 and 1 100 003 (more and up to 2.1e6 when thorough / an obligation broke), one bin with "
         "70 001 segments in each NumPy kernel (record whose level changes along the record), a plan with ~1000 bins / hundreds of distinct L, records "
@@ -994,7 +997,7 @@ def gen_opt(rng: np.random.Generator, i: int, s: int, thorough: bool) -> Dict[st
     else:
         pair = [float(2.0 ** int(rng.integers(1, 30))), 1.0] if rng.random() < 0.5 else [1.0, float(2.0 ** -int(rng.integers(1, 30)))]
     c.update(N=int(N), olap=olap, olap_form=olf, pair=pair, fsfac=[2.0, 3.3, 0.5, float(10 ** rng.uniform(-2, 2))][(i // 4 + k) % 4],
-             steps=["ref", "repeat", "other", "scale", "fs"])
+             steps=["ref", "repeat", "other", "scale", "fs", "tone"])
     return c
 
 
@@ -1248,13 +1251,99 @@ def _same_raw(P: C.Part, c, a, b, what: str, sub: str) -> None:
         return
 
 
+def _tone_check(P: C.Part, c: Dict[str, Any], base, rw, fs: float, sums) -> None:
+    """the calibration statement through THIS case's entry point and options: a sinusoid (two, for two channels) at the frequency of one bin of
+    the case's own plan; density*ENBW of that bin = 2*XX/S1^2 of the reference estimator (every order) and = A^2/2 within the proved bound for
+    orders -1, 0 (r = rho + 2*rho0 measured from the window actually used, rebuilt independently; any window with sum w > 0 — Lemmas/Sinusoid,
+    Calib0), cross spectrum = (AB/2) e^{i dphi} for order -1.  The bin is the one with the smallest r among up to five spread over the plan
+    that lie at least 2.5 bins from 0 and from Nyquist."""
+    order = int(c["order"])
+    nb = len(base.f)
+    cand = [j for j in range(nb) if int(base.L[j]) >= 12 and 2.5 <= float(base.f[j]) * int(base.L[j]) / fs <= int(base.L[j]) / 2 - 2.5]
+    if not cand:
+        P.hit("opt.tone.no-bin-away-from-0-and-Nyquist")
+        return
+    if len(cand) > 5:
+        cand = sorted({cand[(k_ * (len(cand) - 1)) // 4] for k_ in range(5)})
+    best = None
+    for j in cand:
+        L = int(base.L[j])
+        S1, _, Sa = sums[L]
+        if not S1 > 1e-9 * Sa:
+            continue
+        w0 = omega_of(float(base.f[j]), fs)
+        rho = abs(win_transform(rw(L), 2 * w0)) / S1
+        rho0 = abs(win_transform(rw(L), w0)) * dirichlet_abs(L, w0) / (L * S1) if order == 0 else 0.0
+        if best is None or rho + 2 * rho0 < best[1]:
+            best = (j, rho + 2 * rho0, rho, rho0, w0)
+    if best is None:
+        P.hit("opt.tone.no-bin-with-positive-window-sum")
+        return
+    j, rr, rho, rho0, w0 = best
+    r = np.random.default_rng(int(c["dseed"]) + 17)
+    A, phi, B, phi2 = float(10 ** r.uniform(-2, 2)), float(r.uniform(0, 2 * np.pi)), float(10 ** r.uniform(-2, 2)), float(r.uniform(0, 2 * np.pi))
+    N = int(c["N"])
+    xt = tone(N, A, w0, phi)
+    yt = tone(N, B, w0, phi2) if c["cross"] else None
+    L = int(base.L[j])
+    where = (f"sinusoid of amplitude {A:.6g} at the frequency of bin {j} of {nb} (f={float(base.f[j])!r}, L={L}, bin position {float(base.f[j]) * L / fs:.3f}, "
+             f"K={int(base.K[j])}); {_opt_brief(c)}")
+    P.cases += 1
+    try:
+        rt = _opt_run(c, _opt_input(c, xt, yt), fs)[0]
+    except Exception as ex:  # noqa
+        viol(P, f"{where}: analysis raised {ex!r} although the one of the other record succeeded", _opt_sig(c, "calibration", raises=True), c, tone=[j, A, phi, B, phi2])
+        return
+    if not _same_plan(base, rt) or not np.array_equal(base.f, rt.f) or not np.array_equal(base.ENBW, rt.ENBW):
+        viol(P, f"{where}: the plan (f, L, K, D) or ENBW changed with the data", _opt_sig(c, "scale-channel", field="plan"), c, tone=[j, A, phi, B, phi2])
+        return
+    D = [int(d) for d in rt.D[j]]
+    w = rw(L)
+    S1, S2, _ = sums[L]
+    S12 = S1 * S1
+    omega = 2.0 * np.pi * float(rt.f[j]) / float(fs)
+    en = float(rt.ENBW[j])
+    P.hit("opt.tone.bound-checked" if order in (-1, 0) else "opt.tone.ref-only(order>=1)")
+    if rr < 0.05:
+        P.nontrivial.add(("tone", c.get("backend"), order, bool(c["cross"]), c["entry"], c["win"], L % 2, min(len(D), 3)))
+    else:
+        P.hit("opt.tone.r>=0.05(weak)")
+    for nm, z, amp in ([("x", xt, A)] + ([("y", yt, B)] if yt is not None else [])):
+        XXr, _, _, a, _ = ref_bin_fast(z, None, D, L, w, omega, order)
+        tXX = _an.bin_tol(L, omega, a, a, order)[0]
+        pso = float(rt.ps[j]) if yt is None else float((rt.Gxx if nm == "x" else rt.Gyy)[j]) * en
+        psr, tps = 2 * XXr / S12, 2 * tXX / S12
+        if not abs(pso - psr) <= tps + 1e-12 * psr:
+            viol(P, f"{where}: power spectrum (density*ENBW) of channel {nm} = {pso!r} but 2*XX/S1^2 of the reference estimator = {psr!r} "
+                    f"(S1 = sum w of the independently rebuilt {c['win']} window)", _opt_sig(c, "ps-vs-ref", channel=nm), c, observed=pso, expected=psr,
+                 tol=tps, tone=[j, A, phi, B, phi2])
+            continue
+        if order in (-1, 0):
+            tgt = amp * amp / 2
+            bound = tgt * (2 * rr + rr * rr) + tps + 1e-9 * tgt
+            tight(f"calibration(order {order}) |ps-A^2/2|/bound", abs(pso - tgt) / bound)
+            if not abs(pso - tgt) <= bound:
+                viol(P, f"{where}: power spectrum of channel {nm} = {pso!r}, expected A^2/2 = {tgt!r} within {bound:.3g} (rho={rho:.3g}, rho0={rho0:.3g})",
+                     _opt_sig(c, "calibration", channel=nm), c, observed=pso, expected=tgt, tol=bound, tone=[j, A, phi, B, phi2])
+    if yt is not None and order == -1 and not full(P):
+        _, _, _, a, b = ref_bin_fast(xt, yt, D, L, w, omega, order)
+        tXY = _an.bin_tol(L, omega, a, b, order)[2]
+        tgt = A * B / 2 * complex(math.cos(phi - phi2), math.sin(phi - phi2))
+        bound = abs(tgt) * (2 * rho + rho * rho) + 2 * tXY / S12 + 1e-9 * abs(tgt)
+        tight("cross spectrum |cs-(AB/2)e^{i dphi}|/bound", abs(complex(rt.cs[j]) - tgt) / bound)
+        if not abs(complex(rt.cs[j]) - tgt) <= bound:
+            viol(P, f"{where} and one of amplitude {B:.6g} (phase difference {phi - phi2:.4f}) in the other channel: cross spectrum cs = {complex(rt.cs[j])!r}, "
+                    f"expected (AB/2)e^(i dphi) = {tgt!r} within {bound:.3g}", _opt_sig(c, "cross-calibration"), c, observed=complex(rt.cs[j]), expected=tgt,
+                 tone=[j, A, phi, B, phi2])
+
+
 def check_opt(P: C.Part, c: Dict[str, Any]) -> None:
     remember(c)
     x1, x2 = _opt_data(c)
     fs = float(c["fs"])
     order = int(c["order"])
     single = _opt_single(c)
-    steps = c.get("steps", ["ref", "repeat", "other", "scale", "fs"])
+    steps = c.get("steps", ["ref", "repeat", "other", "scale", "fs", "tone"])
     rw = _opt_refwin(c)
     data = _opt_input(c, x1, x2)
     other_be = "numba" if c.get("backend") == "numpy" else "numpy"
@@ -1429,6 +1518,9 @@ def check_opt(P: C.Part, c: Dict[str, Any]) -> None:
             for nm, ob, ex_, tl, mask in _fs_tests(base, r, a, T4, x2 is None):
                 _cmp_arrays(P, c, sig, nm, ob, ex_, tl, exact, what, mask=mask, factor=a)
             P.hit("opt.fs." + ("exact" if exact else "generic"))
+    # ---- the calibration statement through this entry point, with this window / backend / order
+    if "tone" in steps and not full(P):
+        _tone_check(P, c, base, rw, fs, sums)
     P.sample({"op": "options", **{k_: c[k_] for k_ in ("entry", "backend", "order", "cross", "win", "olap", "layout", "N", "fs")},
               "sched": c.get("sched"), "L": c.get("L"), "bins": nb}, cap=3)
 
@@ -1603,6 +1695,14 @@ CORPUS = [
     {"kind": "wscale", "N": 3000, "dseed": 12, "fs": 1.0, "opts": {"order": 0, "olap": 0.5, "Jdes": 20, "Kdes": 10, "bmin": 1.0, "Lmin": 1, "scheduler": "lpsd"},
      "win": "hann", "psll": None, "cross": True, "rec": ["noise", "tone"], "entry": "compute_spectrum", "layout": "Nx2", "L": 300, "f0": 0.11,
      "pairs": [[1e-6, 1.0], [2e-5, 2e-5], [1e3, 1e-9], [1e12, 1e12], [1e-12, 1e-12], [2.0 ** -25, 1.0]]},
+    # callable windows that take negative values (seeded/C06f: S1 computed as sum |w|, bit-identical for Kaiser / Hann, ENBW and ps off by ~27 % for
+    # flat-top windows): HFT95 and scipy's flattop through the single-bin entry points, and all three through compute() and compute_single_bin
+    {"kind": "calib", "A": 1.7, "phi": 0.4, "L": 1000, "N": 6000, "fs": 1000.0, "f0": 57.3, "psll": None, "order": 0, "olap": None,
+     "via": "func", "cross": False, "B": 1.0, "phi2": 0.0, "win": "hft95"},
+    {"kind": "calib", "A": 0.3, "phi": 2.1, "L": 257, "N": 700, "fs": 2.0, "f0": 31.4 * 2.0 / 257, "psll": None, "order": -1, "olap": 0.5,
+     "via": "fres", "cross": True, "B": 2.0, "phi2": 0.7, "win": "flattop", "backend": "numpy"},
+    {"kind": "enbw", "N": 3000, "dseed": 9, "fs": 1000.0, "opts": {"order": 1, "olap": 0.5, "Jdes": 16, "Kdes": 5, "bmin": 1.0, "Lmin": 1, "scheduler": "ltf"},
+     "seq": [["hft95", None], ["flattop", None], ["neglobe", None]], "cross": False, "rec": "noise", "single_L": 300},
 ]
 
 CHECKS = {"calib": check_calib, "enbw": check_enbw, "scale": check_scale, "wscale": check_wscale, "fs": check_fs, "fs_single": check_fs_single,
